@@ -52,6 +52,7 @@ Observed(t, m) ==
     /\ \A i \in 1 .. Len(t.ret) :     \* with exactly the status the model says they have
           t.rst[i] = StCode(last'.rst[i])
     /\ Has("out") => t.b_out = 0
+    /\ Has("ref") => t.b_ref = 0       \* every handed-back job of the judged class equals the reference interpretation
     /\ Has("mem") => t.b_mem = 0
     /\ Has("desc") => t.b_desc = 0
     \* C13 (SAFE_DATA): in a quiescent state no key material or plaintext is left in registers, in the
